@@ -401,35 +401,60 @@ def parallelize(  # noqa: C901
     # Handle log records created by each process.
     pid_result_list_map = {0: result_list_0}
     for proc in processes:
-        # Get the result record from the result queue.
+        # Get the next result record from the result queue. The result records
+        # arrive in the order in which the child processes finish, hence it is
+        # not necessarily the result record of ``proc``.
         result_received = False
-        proc_died = False
-        while (result_received is False) and (proc_died is False):
+        while result_received is False:
+            # A child process puts its result record into the result queue
+            # before it ends. Hence, if all child processes have ended already,
+            # all the result records are in the result queue.
+            all_procs_ended = all(
+                (p.exitcode is not None) for p in processes)
             try:
                 (pid, result_list, proc_tl) = rqueue.get(block=False)
                 result_received = True
             except queue.Empty:
-                # If this exception is raised, either the child process isn't
-                # finished yet, or it dies due to an exception.
-                if proc.exitcode is None:
-                    # Child process hasn't finish yet.
-                    # We'll wait a short moment.
-                    time.sleep(0.01)
-                elif proc.exitcode != 0:
-                    proc_died = True
-        if proc_died:
-            raise RuntimeError(
-                f'Child process {proc.pid} did not return with 0! '
-                f'Exit code was {proc.exitcode}.')
+                # If this exception is raised, either no further child process
+                # has finished yet, or a child process died, e.g. due to an
+                # exception. The result record of ``proc`` might have been
+                # received already, hence we check all the child processes.
+                for p in processes:
+                    if (p.exitcode is not None) and (p.exitcode != 0):
+                        raise RuntimeError(
+                            f'Child process {p.pid} did not return with 0! '
+                            f'Exit code was {p.exitcode}.')
+                if all_procs_ended:
+                    raise RuntimeError(
+                        'All child processes have ended, but only '
+                        f'{len(pid_result_list_map)-1} of {len(processes)} '
+                        'results were received!')
+                # The child processes haven't finished yet.
+                # We'll wait a short moment.
+                time.sleep(0.01)
 
         pid_result_list_map[pid] = result_list
         if tl is not None:
             tl.join(proc_tl)
         logger.debug(
             f'Beginning of worker process (pid={pid}) log records.')
+        pid_proc = processes[pid-1]
         lqueue_end = False
         while not lqueue_end:
-            record = lqueue_list[pid].get()
+            # A child process puts all its log records and the final None
+            # object into its log records queue before it ends. Hence, if the
+            # child process has ended already and the queue is empty, the None
+            # object will never arrive.
+            pid_proc_ended = pid_proc.exitcode is not None
+            try:
+                record = lqueue_list[pid].get(timeout=0.01)
+            except queue.Empty:
+                if pid_proc_ended:
+                    raise RuntimeError(
+                        f'Child process {pid_proc.pid} ended without '
+                        'completing its log records! '
+                        f'Exit code was {pid_proc.exitcode}.')
+                continue
             if record is None:
                 lqueue_end = True
             else:
